@@ -324,6 +324,55 @@ static void polys(bool thorough)
     R.sample("{\"coefficients\":[1,-2,3],\"x\":2,\"eval\":9,\"evar_of_reversed\":9}");
 }
 
+// ---------------------------------------------------------------- evaluation where a bare power of x leaves the range, and in-place accessors
+// Horner's rule never forms x^i alone: with vanishing high-order coefficients a huge argument, and with a huge leading coefficient a tiny
+// argument, give representable values.  The coefficient accessors are also called with the object's own coefficient array as output
+// (turning a copy of a trajectory into its velocity / acceleration / jerk polynomial): the result is the same as with a separate array.
+static void extremes()
+{
+    if (R.shard.idx != 0) { return; }
+    uint64_t n = 0;
+    const int HE = sizeof(a_real) == 4 ? 100 : 600; // 2^HE squared overflows, 2^-HE squared underflows
+    struct Case { a_real a[4]; int len; a_real x; long double want; };
+    const a_real big = (a_real)std::ldexp(1.0, HE), tiny = (a_real)std::ldexp(1.0, -HE);
+    const Case cs[] = {
+        {{1, 2, 0, 0}, 4, big, 1 + 2 * (long double)big},
+        {{-3, 1, 0, 0}, 4, (a_real)-big, -3 - (long double)big},
+        {{5, 0, 0, 0}, 4, big, 5},
+        {{0, 0, (a_real)std::ldexp(1.0, HE), 0}, 3, tiny, (long double)tiny},                                   // 2^HE x^2 at x = 2^-HE is 2^-HE
+        {{0, 0, 0, (a_real)std::ldexp(1.0, HE)}, 4, (a_real)std::ldexp(1.0, -HE / 2), (long double)std::ldexp(1.0, HE - 3 * (HE / 2))},
+    };
+    for (const Case &c : cs)
+    {
+        a_real b[4];
+        for (int i = 0; i < c.len; ++i) { b[i] = c.a[c.len - 1 - i]; }
+        a_real got[4] = {a_poly_eval(c.a, (a_size)c.len, c.x), a_poly_eval_(c.a, c.a + c.len, c.x), a_poly_evar(b, (a_size)c.len, c.x), a_poly_evar_(b, b + c.len, c.x)};
+        static const char *FN[4] = {"a_poly_eval", "a_poly_eval_", "a_poly_evar", "a_poly_evar_"};
+        for (int f = 0; f < 4; ++f)
+        {
+            ++n;
+            if (!(std::fabs((double)(((long double)got[f] - c.want) / c.want)) <= 8 * EPS)) { R.viol(std::string(FN[f]) + "|extreme-argument", std::string(FN[f]) + " at x = " + num((double)c.x) + " returned " + num((double)got[f]) + ", the Horner value is " + num((double)c.want) + " (a bare power of x over- or underflows, the nested form does not)", "{\"x\":" + num((double)c.x) + ",\"len\":" + std::to_string(c.len) + "}"); }
+        }
+    }
+    // in-place accessors
+    {
+        a_trajpoly3 t3; a_trajpoly5 t5; a_trajpoly7 t7;
+        a_trajpoly3_gen(&t3, 2, 1, 4, -1, 2);
+        a_trajpoly5_gen(&t5, 2, 1, 4, -1, 2, 3, -2);
+        a_trajpoly7_gen(&t7, 2, 1, 4, -1, 2, 3, -2, 1, -1);
+        a_real s[8];
+        bool ok = true;
+        std::string which;
+#define INPLACE(T, obj, fn, cnt) do { T d_ = obj; fn(&obj, s); fn(&d_, d_.c); ++n; if (!same_vec(s, d_.c, cnt)) { ok = false; which = #fn; } } while (0)
+        INPLACE(a_trajpoly3, t3, a_trajpoly3_c0, 4); INPLACE(a_trajpoly3, t3, a_trajpoly3_c1, 3); INPLACE(a_trajpoly3, t3, a_trajpoly3_c2, 2);
+        INPLACE(a_trajpoly5, t5, a_trajpoly5_c0, 6); INPLACE(a_trajpoly5, t5, a_trajpoly5_c1, 5); INPLACE(a_trajpoly5, t5, a_trajpoly5_c2, 4);
+        INPLACE(a_trajpoly7, t7, a_trajpoly7_c0, 8); INPLACE(a_trajpoly7, t7, a_trajpoly7_c1, 7); INPLACE(a_trajpoly7, t7, a_trajpoly7_c2, 6); INPLACE(a_trajpoly7, t7, a_trajpoly7_c3, 5);
+#undef INPLACE
+        if (!ok) { R.viol(which + "|in-place", which + " with the object's own coefficient array as output does not give the coefficients it gives with a separate array", "{\"fn\":\"" + which + "\"}"); }
+    }
+    R.part("evaluation at arguments whose bare powers leave the range (2^+-" + std::to_string(HE) + "), coefficient accessors writing into the object's own array", n, n);
+}
+
 // ---------------------------------------------------------------- evaluation again after the coefficients changed in place
 // straight-line code through opaque pointers at -O2: an evaluator reads the coefficients (the trajectory object) as they are at the
 // moment of the call; a declaration that promises independence from memory would let the compiler reuse the earlier value
@@ -396,6 +445,7 @@ int main(int argc, char **argv)
     return vx::run_contained([&] {
         trajectories(thorough);
         polys(thorough);
+        extremes();
         reread();
         std::string w = "{\"coefficient_err_eps\":" + num(worst[0]) + ",\"final_err_eps\":" + num(worst[1]) + ",\"derivative_err_eps\":" + num(worst[2]) + "}";
         vx::info("worst_observed", w);
